@@ -353,8 +353,15 @@ def run_check_locked(pid, tier, seed, replay=None, n_override=None):
                     r = json.loads(line)
                     r["harness"] = hi
                     monitor_hits.append(r)
-        if built:
-            nf, mism, errs = run_case_files(group, hdir, log)
+        # a harness borrowed from another property records cases for that property's model
+        hgroup = h.get("group", group)
+        hbuilt = built
+        if hgroup != group:
+            hbuilt = build_group(hgroup, log)
+            if not hbuilt:
+                broken.append(("Coq build of group " + hgroup, log[-1][-2500:]))
+        if hbuilt:
+            nf, mism, errs = run_case_files(hgroup, hdir, log)
             n_case_files += nf
             for m in mism:
                 m["harness"] = hi
@@ -482,7 +489,7 @@ def run_check_locked(pid, tier, seed, replay=None, n_override=None):
 
 def setup():
     rc_all = 0
-    groups = sorted({c["group"] for c in registered_cfgs()})
+    groups = sorted({c["group"] for c in registered_cfgs()} | {h["group"] for c in registered_cfgs() for h in c.get("harness", []) if h.get("group")})
     for g in groups:
         log = []
         ok = build_group(g, log)
